@@ -28,7 +28,7 @@ OPS_WITNESSES = ["buildkeepsfeewhenzero", "buildkeepslargergas", "buildappendsms
 
 MANIFEST_ENTRY = dict(engine="Envelope", design="§4 C18",
    technique="TLA+ spec Envelope.tla: TLC enumerates the case space of a depth-1 input machine (product of field classes of the three transaction types, restricted to the combinations that exist) and proves the derived-figure definitions mutually consistent on it; every enumerated case plus seeded random cases is executed as one real signed transaction through FromEthereumTx / ValidateBasic / BuildTx / TxEncoder / TxDecoder / AsTransaction; TLC validates every recorded case against the identities and the figures it computes itself with exact integers (trace validation). Second machine EnvelopeOps.tla: the same API as OPERATIONS on shared objects (one re-used TxBuilder, wrapped messages, decoded multi-message Cosmos transactions): TLC model-checks the property layer (per-operation effect + frame condition, invariants) exhaustively on the as-built machine and refutes four named mutation witnesses; TLC-simulated behaviours and seeded random scenarios are executed on the real objects and every recorded step is validated by TLC",
-   text="Model-driven case enumeration with real-code replay. TLC enumerates the product of field classes (type x nonce x gas x amount {nil,0,1,2^64,2^256-1} x gasPrice or feeCap x tip/cap relation x data {empty,1B,64KiB} x access list {nil,empty,3x3} x to {create,call,zero address} x legacy signature form x chain id {1,11235,2^63} x base-fee class), quick tier: factored product (all numeric combinations x 3 structural backgrounds, all structural combinations x 3 numeric backgrounds, 6269 cases), thorough tier: the full product (324014 cases), plus out-of-range cases; on the model it proves that fee, cost and effective price/fee/cost as defined from the statement are mutually consistent (effective <= static, cost - fee = value, min(tip+base,cap) - base = min(tip,cap-base), the class decides the side of the min, EIP-155 chain-id derivation). The harness signs one go-ethereum transaction per case (seeded value inside the class, fresh key), runs the real wrap/encode/decode/unwrap path with the node's TxConfig and logs every field before and after; TLC checks on every recorded case: hash after = hash before = MsgEthereumTx.Hash, recovered sender = original sender = key address (also through the message's GetSender/GetSigners), every field and the type equal, and GetFee / Cost / EffectiveGasPrice / GetEffectiveFee / EffectiveCost of the message (before encoding and after decoding) and the envelope's fee and gas limit equal the figures TLC computes from the original transaction. RLP, protobuf, Any packing and signature recovery are observed through the real calls (before/after), not modelled. Sequences (EnvelopeOps): a state machine whose state is the projection of the live objects - the wrapped messages of 2-4 signed originals (drawn from the same case product, about half of them free), THE shared TxBuilder, the encoded envelopes and the decoded Cosmos transactions - and whose operations are build (MsgEthereumTx.BuildTx on the shared builder, whatever it held before), pack (several Ethereum messages in one envelope, summed fee and gas limit), encode (builder or decoded transaction), decode, lookup (UnwrapEthereumMsg for the hash of any original at any position, or a foreign hash) and get (AsTransaction.Hash, GetMsgs, Marshal/Unmarshal, TxType, GetSender, GetSigners, AsMessage, GetFee, GetGas, Cost, GetEffectiveFee, ValidateBasic on any message of any object). P: every operation has exactly its effect (a build leaves an envelope of exactly that message with exactly its fee and gas limit; what is decoded is what was encoded; a lookup returns the message with that hash iff the envelope carries it; a getter returns the figure of the original) and changes nothing else anywhere; after every step every message object records its own Ethereum hash, shows hash / sender / type / field digest / fee / gas / cost / effective fee of the original it carries and passes ValidateBasic, and every envelope's fee and gas limit are the sums over the originals it carries. Quick: exhaustive to depth 6 on two pools (5k states), 400 TLC behaviours of 12 operations + 200 random scenarios of 14 (8200 validated steps); thorough: depth 7 with all getters (42k states), 3000 + 2000 scenarios.",
+   text="Model-driven case enumeration with real-code replay. TLC enumerates the product of field classes (type x nonce x gas x amount {nil,0,1,2^64,2^256-1} x gasPrice or feeCap x tip/cap relation x data {empty,1B,64KiB} x access list {nil,empty,3x3} x to {create,call,zero address} x legacy signature form x chain id {1,11235,2^63} x base-fee class), quick tier: factored product (all numeric combinations x 3 structural backgrounds, all structural combinations x 3 numeric backgrounds, 6269 cases), thorough tier: the full product (324014 cases), plus out-of-range cases; on the model it proves that fee, cost and effective price/fee/cost as defined from the statement are mutually consistent (effective <= static, cost - fee = value, min(tip+base,cap) - base = min(tip,cap-base), the class decides the side of the min, EIP-155 chain-id derivation). The harness signs one go-ethereum transaction per case (seeded value inside the class, fresh key), runs the real wrap/encode/decode/unwrap path with the node's TxConfig and logs every field before and after; TLC checks on every recorded case: hash after = hash before = MsgEthereumTx.Hash, recovered sender = original sender = key address (also through the message's GetSender/GetSigners), every field and the type equal, and GetFee / Cost / EffectiveGasPrice / GetEffectiveFee / EffectiveCost of the message (before encoding and after decoding) and the envelope's fee and gas limit equal the figures TLC computes from the original transaction. RLP, protobuf, Any packing and signature recovery are observed through the real calls (before/after), not modelled. The envelope itself is an input dimension: next to the signed transaction a MsgEthereumTx carries a recorded hash (a string) and a From field no signature covers; the wrapping API produces one point (canonical Hash.Hex(), empty From), a sender who builds the envelope by hand any other. TLC crosses the spelling of the recorded hash {canonical, upper case, mixed case, 0X prefix, no prefix, odd digit count, zero-padded, longer with foreign leading bytes, other 32 bytes, empty} x From {empty, signer, foreign address, not an address} x type on three backgrounds (full tier: also x signature form x chain id x to x data); the harness puts each such envelope on the wire with the builder's own setters and logs what the receiving side sees after TxDecoder / GetMsgs; P: whatever ValidateBasic ACCEPTS there records exactly the Ethereum hash (the string every wrapping function writes), carries the signed original (hash, recoverable sender) and answers the key holder from GetSender; which envelopes are refused is not judged; on the model the transcribed acceptance rule satisfies this and the witness 'recorded hash compared as parsed bytes' is refuted. Sequences (EnvelopeOps): a state machine whose state is the projection of the live objects - the wrapped messages of 2-4 signed originals (drawn from the same case product, about half of them free), THE shared TxBuilder, the encoded envelopes and the decoded Cosmos transactions - and whose operations are build (MsgEthereumTx.BuildTx on the shared builder, whatever it held before), pack (several Ethereum messages in one envelope, summed fee and gas limit), encode (builder or decoded transaction), decode, lookup (UnwrapEthereumMsg for the hash of any original at any position, or a foreign hash) and get (AsTransaction.Hash, GetMsgs, Marshal/Unmarshal, TxType, GetSender, GetSigners, AsMessage, GetFee, GetGas, Cost, GetEffectiveFee, ValidateBasic on any message of any object). P: every operation has exactly its effect (a build leaves an envelope of exactly that message with exactly its fee and gas limit; what is decoded is what was encoded; a lookup returns the message with that hash iff the envelope carries it; a getter returns the figure of the original) and changes nothing else anywhere; after every step every message object records its own Ethereum hash, shows hash / sender / type / field digest / fee / gas / cost / effective fee of the original it carries and passes ValidateBasic, and every envelope's fee and gas limit are the sums over the originals it carries. Quick: exhaustive to depth 6 on two pools (5k states), 400 TLC behaviours of 12 operations + 200 random scenarios of 14 (8200 validated steps); thorough: depth 7 with all getters (42k states), 3000 + 2000 scenarios.",
    note="Fidelity is checked on the enumerated classes and seeded instances, not on all field values; the specification contributes the case analysis, the figures and the acceptance-rule transcription (diagnostic), it does not model the codecs. Transactions the code refuses at construction (values above 2^256-1) or whose envelope cannot be built after ValidateBasic refused them (fee above 2^256-1) are counted, not judged. Dynamic-fee transactions without a base fee have no effective price in the statement (the code panics there; logged). The receiving side is TxDecoder + GetMsgs + AsTransaction, not a full CheckTx. In the sequence machine the unsigned From field (written by GetSender, cleared by BuildTx) is not part of the projection, builder attributes BuildTx never sets (memo, timeout, fee payer, signatures) are not driven, multi-message envelopes are assembled by the harness with the builder's own setters, and pools hold only transactions ValidateBasic accepts; the mutation witnesses (Defects of EnvelopeOps) are not known deviations of the code, they show that P separates such machines. TLC, the Json community module, the BigNum override and go-ethereum's signer / hash as the reference for the original transaction are trusted.")
 
 
@@ -283,9 +283,18 @@ def run(c):
     cfg = "Envelope_cases.cfg" if quick else "Envelope_cases_full.cfg"
     r = tlc_exhaustive(wd, "Envelope.tla", cfg, workers=4, timeout=3000)
     c.add_tlc(cfg, r)
+    # the envelope dimension is able to tell machines apart: an acceptance rule that parses the recorded hash and
+    # compares bytes is refuted by P on the model
+    r = tlc_exhaustive(wd, "Envelope.tla", "Envelope_witness_hashasbytes.cfg", must="fail", workers=1)
+    c.add_tlc("Envelope_witness_hashasbytes.cfg", r)
+    if "Inv_RecordedHashOfAccepted" not in (r.invariant_violated or []):
+        raise Infra("the mutation witness HashComparedAsBytes was refuted by %s, not by Inv_RecordedHashOfAccepted" % r.invariant_violated)
     cases, r = _emit_cases(wd, not quick)
     c.add_tlc("Envelope_emit%s.cfg" % ("" if quick else "_full"), r)
     by_type = collections.Counter(cs["type"] for cs in cases)
+    hand_cases = sum(1 for cs in cases if cs["rec"] != "canon" or cs["from"] != "empty")
+    if hand_cases < 300:
+        raise Infra("only %d hand-built envelopes among the enumerated cases" % hand_cases)
     if len(cases) < (5000 if quick else 300000) or min(by_type[t] for t in ("legacy", "accesslist", "dynamic")) < 1000:
         raise Infra("case space smaller than expected: %d %s" % (len(cases), dict(by_type)))
     with open(os.path.join(wd, "cases.json"), "w") as fh:
@@ -313,6 +322,7 @@ def run(c):
     vbcls = collections.Counter()
     wrapcls = collections.Counter()
     figchecks = 0
+    hand_samples = 0
     with open(trace) as fh:
         for line in fh:
             o = json.loads(line)
@@ -338,12 +348,21 @@ def run(c):
                     stat["effective_price_undefined_no_base_fee"] += 1
             if len(c.samples) < 4 and o["unwrap"]["ok"] and o["scn"] % 997 == 1:
                 c.samples.append(_sample(o))
+            if o["h"]["run"] and o["h"]["stage"]["ok"]:
+                k = "hand_built:%s:%s" % (o["cfg"]["cls"]["rec"], o["h"]["vbCls"])
+                stat[k] += 1
+                if stat[k] == 1 and o["cfg"]["cls"]["from"] != "garbage" and hand_samples < 4 \
+                        and o["cfg"]["cls"]["rec"] in ("canon", "upper", "longer", "wrong"):
+                    hand_samples += 1
+                    c.samples.append({"scn": o["scn"], "src": o["src"], "cls": o["cfg"]["cls"], "seed": o["cfg"]["seed"],
+                                      "original_hash": o["o"]["hash"], "signer": o["exp"], "hand_built": o["h"]})
     if got != want:
         raise Infra("recorded grid cases differ from the cases TLC emitted (%d vs %d)" % (len(got), len(want)))
     roundtrips = sum(v for k, v in stat.items() if k.startswith("roundtrip:"))
     c.traces = res["consumed"]
     c.extra.update({
         "cases_enumerated_by_tlc": len(cases), "cases_by_type": dict(by_type), "random_cases": nrandom,
+        "hand_built_envelope_cases_enumerated": hand_cases,
         "trace_lines": res["consumed"], "tlc_counters": res["cnt"],
         "full_roundtrips_checked": roundtrips, "outcomes": dict(stat),
         "validatebasic_outcomes": dict(vbcls), "construction_outcomes": dict(wrapcls),
@@ -411,10 +430,15 @@ def run(c):
                 raise Infra("vacuous run: only %d accepted %s transactions made the round trip" % (stat["accepted:" + t], t))
         if stat["refused_at_construction"] < 5 or figchecks < (500 if quick else 50000):
             raise Infra("vacuous run: refused=%d dynamic effective-price checks=%d" % (stat["refused_at_construction"], figchecks))
+        hc = res["cnt"]
+        if hc.get("handBuilt", 0) < 400 or hc.get("handAccepted", 0) < 50 or hc.get("handRefusedDenotingSame", 0) < 100:
+            raise Infra("vacuous run: hand-built envelopes on the receiving side %s, accepted %s, refused for a spelling that "
+                        "denotes the right bytes %s" % (hc.get("handBuilt"), hc.get("handAccepted"), hc.get("handRefusedDenotingSame")))
         _ops_floors(ops_res["cnt"], quick, ops_res["scenarios"])
     c.assumptions += [
         "TLC 1.8.0, the Json community module and the BigNum Java override (java/BigNum.java) are trusted",
         "go-ethereum's signer, hash and accessors are the reference for the ORIGINAL transaction; its Cost / AsMessage figures are cross-checked against TLC's (a mismatch stops the run as an infrastructure problem)",
+        "hand-built envelopes: the sender's builder is the node's TxConfig builder (SetMsgs / SetFeeAmount / SetGasLimit / extension option), the receiving side is TxDecoder + GetMsgs + ValidateBasic + AsTransaction + GetSender; go-ethereum's HexToHash serves only to bind a spelling to its class (which bytes a lenient parser reads), never in a verdict; the deprecated Size_ field is not driven",
         "the round trip is FromEthereumTx -> BuildTx(encoding.MakeConfig(app.ModuleBasics).TxConfig builder) -> TxEncoder -> TxDecoder -> GetMsgs -> AsTransaction; the ante handler is not run",
         "codec internals (RLP, protobuf, Any) are observed before/after, not modelled; fidelity is established for the enumerated classes and the seeded instances inside them",
         "cases refused at construction or whose envelope cannot be built after ValidateBasic refused them are counted, not judged",
